@@ -96,6 +96,39 @@ static void matE_scalar (Args& A, Out& O)
   for (unsigned i=0;i<2;i++) for (unsigned j=0;j<2;j++) { O.put (Rat(w[i][j].val)); O.put (Rat(w[i][j].var)); }
 }
 
+// the scalar is a reference to something INSIDE an element (one level below what the container stores): the value or the
+// variance of an Estimate element, the real or imaginary part of a complex element, an entry of a Stokes / Vector element.
+// kind: vecEval vecEvar stokesEval stokesEvar matEval vecC stokesC vecStokes vecVec matVec; op mul|div; k = index of the owning
+// element (for nested containers: k = 10*i + j).  First half: aliased call; second half: the same with a copy of the scalar
+template<class C, class S, class F> static void sub_alias (const std::string& op, C& v, C& w, S& inside, F put)
+{
+  S copy (inside);
+  if (op == "mul") { v *= inside; w *= copy; } else if (op == "div") { v /= inside; w /= copy; } else throw ProtocolError ("op");
+  put (v); put (w);
+}
+static void subelement (Args& A, Out& O)
+{
+  std::string kind = A.next(); std::string op = A.next(); unsigned k = A.nat();
+  auto putE = [&](const ER& e) { O.put (Rat(e.val)); O.put (Rat(e.var)); };
+  if (kind == "vecEval" || kind == "vecEvar") { Vector<3,ER> v; for (unsigned i=0;i<3;i++) v[i] = rdER (A); Vector<3,ER> w = v; if (k >= 3) throw ProtocolError ("k");
+    Rat& in = (kind == "vecEval") ? v[k].val : v[k].var; sub_alias (op, v, w, in, [&](const Vector<3,ER>& x) { for (unsigned i=0;i<3;i++) putE (x[i]); }); }
+  else if (kind == "stokesEval" || kind == "stokesEvar") { Stokes<ER> v; for (unsigned i=0;i<4;i++) v[i] = rdER (A); Stokes<ER> w = v; if (k >= 4) throw ProtocolError ("k");
+    Rat& in = (kind == "stokesEval") ? v[k].val : v[k].var; sub_alias (op, v, w, in, [&](const Stokes<ER>& x) { for (unsigned i=0;i<4;i++) putE (x[i]); }); }
+  else if (kind == "matEval") { Matrix<2,2,ER> v; for (unsigned i=0;i<2;i++) for (unsigned j=0;j<2;j++) v[i][j] = rdER (A); Matrix<2,2,ER> w = v; if (k >= 4) throw ProtocolError ("k");
+    Rat& in = v[k/2][k%2].val; sub_alias (op, v, w, in, [&](const Matrix<2,2,ER>& x) { for (unsigned i=0;i<2;i++) for (unsigned j=0;j<2;j++) putE (x[i][j]); }); }
+  else if (kind == "vecC") { Vector<3,CRat> v; for (unsigned i=0;i<3;i++) v[i] = A.cx(); Vector<3,CRat> w = v; if (k >= 6) throw ProtocolError ("k");
+    Rat& in = DatumTraits<CRat>::element (v[k/2], k%2); sub_alias (op, v, w, in, [&](const Vector<3,CRat>& x) { for (unsigned i=0;i<3;i++) O.put (x[i]); }); }
+  else if (kind == "stokesC") { Stokes<CRat> v; for (unsigned i=0;i<4;i++) v[i] = A.cx(); Stokes<CRat> w = v; if (k >= 8) throw ProtocolError ("k");
+    Rat& in = DatumTraits<CRat>::element (v[k/2], k%2); sub_alias (op, v, w, in, [&](const Stokes<CRat>& x) { for (unsigned i=0;i<4;i++) O.put (x[i]); }); }
+  else if (kind == "vecStokes") { Vector<2, Stokes<Rat> > v; for (unsigned i=0;i<2;i++) v[i] = A.stokes(); Vector<2, Stokes<Rat> > w = v; if (k/10 >= 2 || k%10 >= 4) throw ProtocolError ("k");
+    Rat& in = v[k/10][k%10]; sub_alias (op, v, w, in, [&](const Vector<2, Stokes<Rat> >& x) { for (unsigned i=0;i<2;i++) O.put (x[i]); }); }
+  else if (kind == "vecVec") { Vector<2, Vector<3,Rat> > v; for (unsigned i=0;i<2;i++) v[i] = A.vec<3>(); Vector<2, Vector<3,Rat> > w = v; if (k/10 >= 2 || k%10 >= 3) throw ProtocolError ("k");
+    Rat& in = v[k/10][k%10]; sub_alias (op, v, w, in, [&](const Vector<2, Vector<3,Rat> >& x) { for (unsigned i=0;i<2;i++) for (unsigned j=0;j<3;j++) O.put (x[i][j]); }); }
+  else if (kind == "matVec") { Matrix<2,2, Vector<2,Rat> > v; for (unsigned i=0;i<2;i++) for (unsigned j=0;j<2;j++) v[i][j] = A.vec<2>(); Matrix<2,2, Vector<2,Rat> > w = v; if (k/10 >= 4 || k%10 >= 2) throw ProtocolError ("k");
+    Rat& in = v[(k/10)/2][(k/10)%2][k%10]; sub_alias (op, v, w, in, [&](const Matrix<2,2, Vector<2,Rat> >& x) { for (unsigned i=0;i<2;i++) for (unsigned j=0;j<2;j++) for (unsigned l=0;l<2;l++) O.put (x[i][j][l]); }); }
+  else throw ProtocolError ("kind");
+}
+
 #define DISPATCH_N(fn) \
   switch (n) { case 1: fn<1>(A,O); break; case 2: fn<2>(A,O); break; case 3: fn<3>(A,O); break; \
     case 4: fn<4>(A,O); break; case 5: fn<5>(A,O); break; case 6: fn<6>(A,O); break; default: throw ProtocolError("N"); }
@@ -112,6 +145,7 @@ int main ()
   OP("al.vec") { unsigned n = A.nat(); DISPATCH_N(vec_scalar) };
   OP("o.c16.vecE") { unsigned n = A.nat(); switch (n) { case 2: vecE_scalar<2>(A,O); break; case 3: vecE_scalar<3>(A,O); break; case 4: vecE_scalar<4>(A,O); break; default: throw ProtocolError("N"); } };
   OP("o.c16.stokesE") { stokesE_scalar (A, O); };
+  OP("o.c16.sub") { subelement (A, O); };
   OP("o.c16.matE") { matE_scalar (A, O); };
   OP("al.vecvec") { unsigned n = A.nat(); DISPATCH_N(vec_vec) };
   OP("al.mat") { unsigned r = A.nat(); unsigned c = A.nat(); DISPATCH_RC(mat_scalar) };
